@@ -62,6 +62,7 @@ pub mod verif_seam {
     pub static TRACE: Mutex<Option<Trace>> = Mutex::new(None);
 
     pub fn on_kv_batch(index: usize, kvs: &[(BString, u64)]) {
+        crate::world::fd_fault_tick();
         let mut keys: Vec<&BString> = kvs.iter().map(|kv| &kv.0).collect();
         keys.sort();
         let mut dups = 0;
@@ -77,6 +78,7 @@ pub mod verif_seam {
     }
 
     pub fn on_union_batch(gen: usize, index: usize, fsts: &[PathBuf]) {
+        crate::world::fd_fault_tick();
         let mut names: Vec<String> = fsts
             .iter()
             .map(|p| p.file_name().map(|n| n.to_string_lossy().to_string()).unwrap_or_default())
